@@ -199,7 +199,7 @@ impl Sim {
             return Err(vio("C06.bounds", "offset-outside-input".into(), step, format!("offset {} outside the input {}..{}", after.offset, after.start, after.end)));
         }
         let base = before.stack.len() - nargs;
-        let tripped = matches!(&res, Err(Xerr::ErrorMsg(m)) if m.contains("stack limit reached"));
+        let tripped = is_limit_err(&res, Some("stack"));
         if tripped {
             st.count("fault.result_push_failed");
         }
